@@ -1,5 +1,6 @@
 (* C18 -- save containers: writes keep data and hash tree consistent. *)
-From Pyctr Require Import Base.Prelude Base.ListExt Base.PyInt Base.PySlice Model.Ivfc Model.IvfcWrite Proofs.IvfcProofs Proofs.IvfcWriteProofs.
+From Pyctr Require Import Base.Prelude Base.ListExt Base.PyInt Base.PySlice Model.Ivfc Model.IvfcWrite Proofs.IvfcProofs Proofs.IvfcWriteProofs
+  Model.Blocks Model.Dpfs Model.DpfsWrite Proofs.DpfsProofs Proofs.DpfsWriteProofs.
 
 Section C18.
 Variable H : list Z -> list Z.                       (* SHA-256: uninterpreted ... *)
@@ -22,12 +23,28 @@ Proof. exact (write_level_ok H H_len). Qed.
 (* ... hence every block has an intact chain up to the (new) master hashes: it will be served as valid after
    re-opening (C17_complete), whatever block the write started in *)
 Theorem C18_reopen_verifies : forall t m li x,
-  wfg t m -> (li < length t)%nat -> consistent_upto H t m li -> 0 <= x < nblocks t li -> chain_ok H t m li x.
+  wfg t m -> (li < length t)%nat -> consistent_upto H t m li -> 0 <= x < IvfcWriteProofs.nblocks t li -> chain_ok H t m li x.
 Proof. exact (consistent_chain H). Qed.
 
 End C18.
 
+(* DPFS: a write of any data at any position through the level-3 view, whatever the level-2 bitmap: the returned count is the
+   length of the data cut to the end of the level; every byte of the two-copy area keeps its value except those the active view
+   shows at the written positions, which take the data (so the inactive copies and the bytes around are untouched); and the
+   active view afterwards is the old one with the data laid over it *)
+Theorem C18_dpfs_write : forall size bs lv2 pair off data,
+  0 < bs -> 0 < size -> len pair = 2 * size -> 0 <= off ->
+  let '(pair', n) := lv3_write pair size bs lv2 off data in
+  let d := clamp size off data in
+  n = len d /\ len pair' = 2 * size /\
+  (forall q, 0 <= q -> zth pair' q = written size bs lv2 off d pair q) /\
+  (forall p, 0 <= p < size ->
+     zth (active_view pair' size bs (active_bit lv2)) p =
+     if (off <=? p) && (p <? off + len d) then zth d (p - off) else zth (active_view pair size bs (active_bit lv2)) p).
+Proof. intros size bs lv2 pair off data Hbs Hsize Hl Ho. exact (lv3_write_spec size bs lv2 Hbs Hsize pair off data Hl Ho). Qed.
+
 Print Assumptions C18_write_consistent.
+Print Assumptions C18_dpfs_write.
 Print Assumptions C18_reopen_verifies.
 
 (* non-vacuity: a toy two-level tree; a write into the second data block *)
@@ -39,3 +56,9 @@ Example C18_example :
   let '(t', m') := write_level toyH 1 5 [9; 9] t m in
   ldata t' 1 = [1; 2; 3; 4; 5; 9; 9; 8] /\ ldata t' 0 = toyH [1; 2; 3; 4] ++ toyH [5; 9; 9; 8] /\ m' = [toyH (ldata t' 0)].
 Proof. vm_compute. auto. Qed.
+
+Example C18_dpfs_write_nonvacuous :
+  let lv2 := lv2_words ex_lv2 4 (lv1_words ex_lv1 0) in
+  lv3_write ex_lv3 10 4 lv2 1 [201; 202; 203; 204; 205; 206; 207; 208] =
+  ([0; 1; 2; 3; 204; 205; 206; 207; 8; 9; 100; 201; 202; 203; 104; 105; 106; 107; 208; 109], 8).
+Proof. exact dpfs_write_nonvacuous. Qed.
